@@ -50,6 +50,17 @@ def name_event(x):
             ev["back_snake"] = len(ks) == 1 and getattr(C().from_dict({ks[0]: "v"}), f) == "v"
             ev["back_camel"] = len(kc) == 1 and getattr(C().from_dict({kc[0]: "v"}), f) == "v"
             ev["back_orig"] = getattr(C().from_dict({x: "v"}), f) == "v"
+            # the same field as a member of a oneof, read into an object in which another member is selected: the name (whatever
+            # it looks like, a leading underscore included) is a field like any other
+            if f != "zz_other":
+                C2 = dataclasses.make_dataclass("M", [("zz_other", str, betterproto.string_field(1, group="g")), (f, str, betterproto.string_field(2, group="g"))],
+                                                bases=(betterproto.Message,), eq=False, repr=False)
+                m2 = C2(zz_other="o")
+                m2.from_dict({x: "v"})
+                sel = betterproto.which_one_of(m2, "g")[0] == f and list(m2.to_dict(casing=betterproto.Casing.SNAKE)) == ks
+                m2 = C2(zz_other="o")
+                setattr(m2, f, "v")
+                ev["back_orig"] = ev["back_orig"] and sel and betterproto.which_one_of(m2, "g")[0] == f and bytes(m2) == b"\x12\x01v"
     except Exception as ex:
         ev["res"] = type(ex).__name__ + ":" + str(ex)[:60]
     return ev
